@@ -68,7 +68,7 @@ TOPO_KEY = {"edge": 2, "path3": 30, "triangle": 3, "cycle4": 40, "diamond": 41, 
             "star3": 43}
 
 
-def _build(rng, shapes, labels, glue="random", extra_nodes=0):
+def _build(rng, shapes, labels, glue="random", extra_nodes=0, p2=0.3):
     """glue motifs so that any two share at most one vertex"""
     motifs = []
     used = []           # vertices in use
@@ -86,7 +86,7 @@ def _build(rng, shapes, labels, glue="random", extra_nodes=0):
             cand = list(used)
             a = rng.choice(cand)
             mapping[local[0]] = a
-            if n >= 3 and len(motifs) >= 2 and rng.random() < 0.3:
+            if len(motifs) >= 2 and rng.random() < (1.0 if (glue == "ring" and k == len(shapes) - 1) else p2):
                 ma = set(pairs_shared[a])
                 cand2 = [v for v in used if v != a and not (set(pairs_shared[v]) & ma)]
                 if cand2:
@@ -133,6 +133,8 @@ def _phis(rng, n, bits=3):
         else:
             f = Fraction(rng.randint(0, den), den)
             out.append([f.numerator, f.denominator])
+    if n >= 3 and rng.random() < 0.5:
+        out[-1] = out[0]  # the same query again after others (stale state shows here)
     return out
 
 
@@ -151,6 +153,12 @@ def corpus():
     for T in (1, 2, 3):
         c = _build(rng, ["edge", "diamond", "triangle", "cycle4"], range(14), glue="chain", extra_nodes=1)
         out.append(dict(c, T=T, phis=[[1, 2], [7, 8], [1, 8]]))
+    # rings of motifs (messages circulate: the value keeps depending on T)
+    for T in (1, 2, 3):
+        c = _build(rng, ["edge", "edge", "edge", "triangle"], range(8), glue="ring", p2=0.5)
+        out.append(dict(c, T=T, phis=[[1, 2], [3, 4], [1, 1], [0, 1], [1, 4]]))
+        c = _build(rng, ["triangle", "cycle4", "diamond"], range(12), glue="ring", p2=0.0)
+        out.append(dict(c, T=T, phis=[[1, 2], [3, 4]]))
     # T = 0 and the empty network
     c = _build(rng, ["triangle", "edge"], range(5), glue="chain")
     out.append(dict(c, T=0, phis=[[1, 2], [1, 4]]))
@@ -159,14 +167,16 @@ def corpus():
 
 
 def generate(rng, tier):
-    n = 70 if tier == "quick" else 700
+    n = 55 if tier == "quick" else 600
     names = list(SHAPES)
     for _ in range(n):
         k = rng.choice([1, 2, 2, 3, 3, 4, 5])
         shapes = [rng.choice(names) for _ in range(k)]
         # keep the exact rationals small: at most 16 edges in the big motifs
-        glue = rng.choice(["chain", "random", "random", "disjoint" if k <= 2 else "random"])
-        c = _build(rng, shapes, range(24), glue=glue, extra_nodes=rng.choice([0, 0, 1, 2]))
+        glue = rng.choice(["chain", "random", "ring", "ring", "disjoint" if k <= 2 else "ring"])
+        if glue == "ring" and rng.random() < 0.4:
+            shapes = [rng.choice(["edge", "edge", "triangle", "path3"]) for _ in range(rng.randint(3, 6))]
+        c = _build(rng, shapes, range(24), glue=glue, extra_nodes=rng.choice([0, 0, 1, 2]), p2=rng.choice([0.0, 0.3, 0.6]))
         T = rng.choice([0, 1, 1, 2, 2, 3])
         bits = 3 if T <= 2 else 2
         yield dict(c, T=T, phis=_phis(rng, rng.randint(1, 6 if T <= 2 else 3), bits))
@@ -177,14 +187,22 @@ def generate(rng, tier):
 # ----------------------------------------------------------------- implementation side
 def _mk_graph(case):
     import networkx as nx
-    G = nx.Graph()
+    G = nx.Graph(note="net")
     G.add_nodes_from(case["nodes"])
+    nx.set_node_attributes(G, {v: f"v{v}" for v in case["nodes"]}, "lab")
     labels = {}
     for m in case["motifs"]:
         labels[m["id"]] = f"{m['key']}-{list(m['verts'])}-{[tuple(e) for e in m['edges']]}-{m['id']}"
-    for a, b, mid in case["insert"]:
-        G.add_edge(a, b, CoverLabel=labels[mid])
+    for k, (a, b, mid) in enumerate(case["insert"]):
+        G.add_edge(a, b, CoverLabel=labels[mid], w=k)
     return G
+
+
+def _snapshot(G):
+    """everything a caller can see of the network, attribute data and iteration orders included"""
+    return ([(n, sorted(d.items())) for n, d in G.nodes(data=True)],
+            [(a, b, sorted(d.items())) for a, b, d in G.edges(data=True)],
+            sorted(G.graph.items()), [(n, list(G.adj[n])) for n in G.nodes()])
 
 
 def _frac(x):
@@ -199,12 +217,16 @@ def impl(case):
     sweep = [[i, j, int(G.edges[i, j]["CoverLabel"].split("-")[-1])] for i, j in G.edges()]
     mp = MessagePassing(G, iterations=case["T"])
     hist = []
+    pure = 1
     for num, den in case["phis"]:
+        before = _snapshot(G)
         hist.append(_frac(mp.theoretical(num / den)))
+        if _snapshot(G) != before:
+            pure = 0
     fresh = []
     for num, den in case["phis"]:
         fresh.append(_frac(MessagePassing(_mk_graph(case), iterations=case["T"]).theoretical(num / den)))
-    return {"nodes": nodes, "sweep": sweep, "hist": hist, "fresh": fresh}
+    return {"nodes": nodes, "sweep": sweep, "hist": hist, "fresh": fresh, "pure": pure}
 
 
 # ----------------------------------------------------------------- model side
@@ -238,6 +260,8 @@ def compare(case, impl_obs, model):
         return f"implementation raised {impl_obs[1]}"
     if len(model) != len(impl_obs["hist"]):
         return "length mismatch"
+    if not impl_obs.get("pure", 1):
+        return "the caller's network (nodes / edges / attribute data / iteration order) was modified by theoretical()"
     for k, (h, f, m) in enumerate(zip(impl_obs["hist"], impl_obs["fresh"], model)):
         q = Fraction(m[0], m[1])
         if not core.close(Fraction(h[0], h[1]), q):
